@@ -12,6 +12,8 @@ on a real `BufferedRaftLog`, real follower path through `Raft::process_inbound_e
   gapped, the request built from it is not.
 * `request_progress`: the F6 truncation never starves a peer — if the leader holds the entry at `next`, the
   request is non-empty and starts at `next`.
+* `request_complete_uncapped`: when the cap does not bite (`lag < cap`) the request carries every entry from
+  `next` on, legacy and new (nothing is dropped by the truncation); `request_carries_new` for a caught-up peer.
 * `accept_keeps_gapfree`: a gap-free follower log stays gap-free under every path of
   `filter_out_conflicts_and_append` when the request is contiguous.
 * "never discards entries that agree with the leader": the full statement `AgreeingKeptStatement` is FALSE as
@@ -139,6 +141,81 @@ theorem request_progress (l : Log) (term commit me nx lastBefore cap : Nat) (new
   | cons x xs =>
     rw [hl] at hleg
     exact ⟨x, xs ++ contigRun (nx + (x :: xs).length) newEs, rfl, ((contigFrom_cons _ _ _).mp hleg).1⟩
+
+/-- new entries directly at `next` (peer fully caught up): the request carries them from the first one. -/
+theorem request_carries_new (l : Log) (term commit me nx lastBefore cap : Nat) (e : Entry) (rest : List Entry)
+    (h1 : 1 ≤ nx) (hlt : lastBefore < nx) (he : e.index = nx) :
+    ∃ rest', (buildReq l term commit me (some nx) (rawFor l lastBefore cap nx (e :: rest))).ents = e :: rest' := by
+  have hleg : legacyFor l lastBefore cap nx = [] := by
+    unfold legacyFor; rw [if_neg (by omega)]
+  have hp : nx - 1 + 1 = nx := by omega
+  simp only [buildReq, rawFor, hleg, List.nil_append, hp, contigRun, he, beq_self_eq_true, ↓reduceIte]
+  exact ⟨_, rfl⟩
+
+theorem filter_ge_contig {f : Nat} {es : List Entry} (h : contigFrom f es = true) (a : Nat) :
+    contigFrom (max a f) (es.filter (fun e => decide (a ≤ e.index))) = true := by
+  induction es generalizing f with
+  | nil => rfl
+  | cons x xs ih =>
+    have hc := (contigFrom_cons f x xs).mp h
+    by_cases hk : a ≤ x.index
+    · have hx : decide (a ≤ x.index) = true := by simp [hk]
+      simp only [List.filter_cons, hx, ↓reduceIte, contigFrom_cons]
+      refine ⟨by omega, ?_⟩
+      have := ih hc.2
+      have e : max a (f + 1) = max a f + 1 := by omega
+      rw [e] at this; exact this
+    · have hx : decide (a ≤ x.index) = false := by simp [hk]
+      simp only [List.filter_cons, hx]
+      have := ih hc.2
+      have e : max a (f + 1) = max a f := by omega
+      rw [e] at this; simpa using this
+
+/-- **Nothing is lost when the cap does not bite**: with `lag < cap`, the request carries every entry of the
+    leader's log from `next` on (legacy and new), i.e. exactly `filter (next ≤ index)`. -/
+theorem request_complete_uncapped (old newEs : List Entry) (l : Log) (term commit me nx cap : Nat)
+    (hl : l.ents = old ++ newEs) (hg : gapFree l.ents = true) (hold : old ≠ [])
+    (h1 : 1 ≤ nx) (hfirst : firstOf old ≤ nx) (hle : nx ≤ lastOf old) (hunc : lastOf old - nx < cap) :
+    (buildReq l term commit me (some nx) (rawFor l (lastOf old) cap nx newEs)).ents =
+      l.ents.filter (fun e => decide (nx ≤ e.index)) := by
+  have hcf := (gapFree_iff _).mp hg
+  rw [hl] at hcf
+  have hf : firstOf (old ++ newEs) = firstOf old := firstOf_append_of_ne _ hold
+  rw [hf] at hcf
+  obtain ⟨hco, hcn⟩ := (contigFrom_append _ _ _).mp hcf
+  have hlo := lastOf_contig hco hold
+  have hpos : 0 < old.length := List.length_pos_iff.mpr hold
+  -- the legacy part is everything of `old` from nx on; the new entries all lie above
+  have hleg : legacyFor l (lastOf old) cap nx = old.filter (fun e => decide (nx ≤ e.index)) := by
+    unfold legacyFor rangeEntries
+    rw [if_pos hle, if_neg (by omega), hl, List.filter_append]
+    have h2 : newEs.filter (fun e => decide (nx ≤ e.index) && decide (e.index ≤ lastOf old)) = [] := by
+      rw [List.filter_eq_nil_iff]
+      intro y hy
+      have := contigFrom_index_ge hcn y hy
+      simp only [Bool.and_eq_true, decide_eq_true_eq]; omega
+    rw [h2, List.append_nil]
+    apply List.filter_congr
+    intro y hy
+    have := contigFrom_index_lt hco y hy
+    have h3 : decide (y.index ≤ lastOf old) = true := by simp; omega
+    simp [h3]
+  have hnew : newEs.filter (fun e => decide (nx ≤ e.index)) = newEs := by
+    rw [List.filter_eq_self]
+    intro y hy
+    have := contigFrom_index_ge hcn y hy
+    simp; omega
+  have hraw : rawFor l (lastOf old) cap nx newEs = l.ents.filter (fun e => decide (nx ≤ e.index)) := by
+    unfold rawFor
+    rw [hleg, hl, List.filter_append, hnew]
+  have hcontig : contigFrom nx (l.ents.filter (fun e => decide (nx ≤ e.index))) = true := by
+    have := filter_ge_contig ((gapFree_iff _).mp hg) nx
+    rw [hl, hf] at this
+    have e : max nx (firstOf old) = nx := by omega
+    rw [e, ← hl] at this; exact this
+  have hp : nx - 1 + 1 = nx := by omega
+  simp only [buildReq, hraw, hp]
+  exact contigRun_of_contig hcontig
 
 /-! ## Follower side -/
 
